@@ -34,6 +34,12 @@ def metrics():
     M['2D-sphere'] = ([th, ph], sp.Matrix([[1, 0], [0, sp.sin(th) ** 2]]))
     M['2D-nondiag'] = ([x, y], sp.Matrix([[1 + x ** 2, x * y],
                                           [x * y, 2 + y ** 2]]))
+    # zero pattern of the metric differs from that of its inverse
+    M['2D-null'] = ([x, y], sp.Matrix([[0, 1], [1, 2 + x * y + y ** 2]]))
+    M['3D-chain'] = ([x, y, z], sp.Matrix(
+        [[2 + y ** 2, R(1, 2) * x, 0],
+         [R(1, 2) * x, 3 + z, R(1, 3) * y],
+         [0, R(1, 3) * y, 2 + x ** 2]]))
     M['3D-diag'] = ([x, y, z], sp.diag(1 + y ** 2, 2 + sp.sin(z),
                                        1 + x ** 2 * y ** 2))
     M['3D-nondiag-simple'] = ([x, y, z], sp.Matrix(
@@ -156,8 +162,8 @@ def explore(task):
 
 def plans(tier, seed):
     P = []
-    small = ['2D-sphere', '2D-nondiag', '3D-diag', '3D-nondiag-simple',
-             '4D-FLRW']
+    small = ['2D-sphere', '2D-nondiag', '2D-null', '3D-diag',
+             '3D-nondiag-simple', '3D-chain', '4D-FLRW']
     big = ['3D-nondiag-full', '4D-conformally-flat', '4D-lapse-shift',
            '4D-nondiag-full']
     if tier == 'quick':
@@ -166,7 +172,7 @@ def plans(tier, seed):
         for m in big:
             P.append((m, False, 1 if m == '4D-nondiag-full' else 2, 60,
                       seed))
-        for m in ('2D-sphere', '2D-nondiag', '4D-FLRW'):
+        for m in ('2D-sphere', '2D-nondiag', '2D-null', '4D-FLRW'):
             P.append((m, True, 10, 100, seed))
         P.append(('3D-diag', True, 1, 60, seed))
         P.append(('3D-nondiag-simple', True, 2, 60, seed))
